@@ -23,6 +23,7 @@ CONSTANTS MaxDepth,      \* nesting depth of signatures (1 = ports only)
           SubFlips,      \* subset of BOOLEAN: sub-signature descriptions written as X / X.flip()
           Variants,      \* BOOLEAN: also compute all single-point corruptions
           Triples,       \* BOOLEAN: corruptions of the 3-tuple <<S,F,F>> as well
+          Quiet,         \* BOOLEAN: also compute the tuples with a leaf that no argument drives
           Mutant         \* "" or a seeded specification error (must violate a theorem)
 
 (* values for the cfg file (cfg syntax has no tuples / records) *)
@@ -281,6 +282,43 @@ ConstVariants(ls, as, af) ==
                : c \in {<<l.init, -1>>, <<l.init, 1 - l.init>>, <<l.init, l.init>>, <<-1, l.init>>}}
            : l \in ls}
 
+(* Tuples with an UNDRIVEN path: one port member (all of its leaves, wherever it sits: nested,    *)
+(* under In(...) wrappers, with dimensions) is made an input on EVERY argument, the other members *)
+(* keep their single output.  "For each path, the port members of every interface object must     *)
+(* have the same width and initial value ... Signedness may differ" holds for such a path as for   *)
+(* any other; when it does, the path is a legal no-op ("If no interface object has an output for   *)
+(* a given path, no connection at all is made") and the remaining paths are connected as usual.    *)
+(* kind "quiet": the compliant tuple;  "shape" / "init": in addition ONE argument (a) declares    *)
+(* another shape / initial value for that member.  The outcome is ConnectOutcome of the tuple, so  *)
+(* a tuple in which nothing else is driven is still refused ("inputs_only").                      *)
+(* dumped as <<tuple, member path, kind, a (0: none), per argument <<flow, dims, w, s, init>> of   *)
+(*            the member, outcome>>                                                               *)
+IsIdx(e) == e \in {"0", "1"}
+NamesOf(path) == SelectSeq(path, LAMBDA e : ~IsIdx(e))
+KindSig(k, x) == IF k = "S" THEN Norm(x) ELSE Flip(Norm(x))
+QTuples == IF Triples THEN << <<"S", "F">>, <<"S", "F", "F">>, <<"S", "S", "F">> >>
+           ELSE << <<"S", "F">>, <<"S", "F", "F">> >>
+QArg(x, k, mp, m) == ArgOf(Flatten(KindSig(k, [fl |-> FALSE, ms |-> Upd(x.ms, mp, FALSE, m)]), <<>>))
+QEnc(mem) == [i \in DOMAIN mem |-> <<mem[i].flow, mem[i].dims, mem[i].w, mem[i].s, mem[i].init>>]
+QuietVariants(x, as, af) ==
+    UNION {UNION {
+        LET t  == QTuples[ti]
+            mp == pm[1]
+            m  == pm[2]
+            DrivenBy(i) == \E l \in (IF t[i] = "S" THEN as ELSE af).leaves : NamesOf(l.path) = mp /\ l.flow = "Out"
+        IN Only({Only({
+             {<<t, mp, "quiet", 0, QEnc(mem), ConnectOutcome(base)>>}
+             \cup UNION {
+                 {Only({<<t, mp, e[1], a, QEnc(mem2), ConnectOutcome([base EXCEPT ![a] = QArg(x, t[a], mp, e[2])])>>
+                        : mem2 \in {[mem EXCEPT ![a] = e[2]]}})
+                  : e \in {<<"shape", [mem[a] EXCEPT !.w = sh.w, !.s = sh.s]>> : sh \in OtherShapes(mem[a])}
+                           \cup {<<"init", [mem[a] EXCEPT !.init = 1 - @]>>}}
+                 : a \in {1, Len(t)}}
+             : base \in {[i \in DOMAIN t |-> QArg(x, t[i], mp, mem[i])]}})
+             : mem \in {[i \in DOMAIN t |-> IF DrivenBy(i) THEN [m EXCEPT !.flow = FlipFlow(@)] ELSE m]}})
+        : pm \in {q \in Members(x, <<>>) : q[2].kind = "port"}}
+        : ti \in DOMAIN QTuples}
+
 (* Corrupted interface objects for is_compliant: one leaf replaced / one leaf missing.           *)
 (* dumped as <<path, impl, w, s, init, is it compliant>>                                         *)
 ObjVariants(s, ls) ==
@@ -314,7 +352,8 @@ Expect4(x, s, f, fs, ff, ls, lf, as, af) ==
      conn    |-> [t \in DOMAIN Tuples |-> Only({ConnectOutcome(args) : args \in {Mk(Tuples[t], as, af)}})],
      vars    |-> IF Variants THEN SigVariants(x, as, af) ELSE {},
      cvars   |-> IF Variants THEN ConstVariants(ls, as, af) ELSE {},
-     ovars   |-> IF Variants THEN ObjVariants(s, ls) ELSE {}]
+     ovars   |-> IF Variants THEN ObjVariants(s, ls) ELSE {},
+     qvars   |-> IF Quiet THEN QuietVariants(x, as, af) ELSE {}]
 Expect3(x, s, f, fs, ff) ==
     Only({Expect4(x, s, f, fs, ff, ls, lf, as, af)
           : ls \in {Range(fs)}, lf \in {Range(ff)}, as \in {ArgOf(fs)}, af \in {ArgOf(ff)}})
